@@ -11,7 +11,8 @@ core.register("C08", "Props.C08", "theories/Props/C08.vo",
                "C08_only_dead_partial"])
 core.register("C14", "Props.C14", "theories/Props/C14.vo", ["C14_quiescent", "C14_drain_terminates"])
 core.register("C03", "Props.C03", "theories/Props/C03.vo", [])
-core.register("C05", "Props.C05", "theories/Props/C05.vo", [])
+core.register("C05", "Props.C05", "theories/Props/C05.vo",
+              ["C05_refuted_gap", "C05_recovers_outside_known", "C05_process_crash_is_image"])
 core.register("C07", "Props.C07", "theories/Props/C07.vo",
               ["C07_refuted_live", "C07_reads_total_outside_known", "C07_boundary_in_force_is_not_enough",
                "C07_reads_total_outside_known_L2"])
@@ -669,18 +670,48 @@ def run_C07(ctx):
     for c in p_seq.corpus("C07") + base:
         head, ops = c.split("|", 1)
         out = []
+        have_snap = False
         for o in [x.strip() for x in ops.split(";") if x.strip()]:
             out.append(o)
+            if o.startswith("X "):
+                have_snap = False
             if o == "I":
                 out.append("G")
                 if rnd.random() < 0.3:
                     out.append("E")
                 if rnd.random() < 0.5:
                     out += ["R 0 100000"] if rnd.random() < 0.5 else ["D"]
+                # a snapshot taken now and iterated later (after more writes, rotations, evictions)
+                if not have_snap and rnd.random() < 0.12:
+                    out += ["DS", "D"]
+                    have_snap = True
+                elif have_snap and rnd.random() < 0.25:
+                    out.append("DI")
+        if have_snap:
+            out.append("DI")
         cases.append(head + "| " + " ; ".join(out))
     impl, model = p_seq.seq_run(ctx, cases)
     spec = p_seq.spec_lines(cases, ctx.wd)
     bad = 0
+    # a snapshot iterated later returns what it returned when it was taken
+    for c, a in zip(cases, impl):
+        fa = p_seq.fields(a)
+        ops = ["open"] + [o.strip() for o in c.split("|", 1)[1].split(";")]
+        taken = None
+        for k, o in enumerate(ops):
+            if k >= len(fa):
+                break
+            if o == "DS" and k + 1 < len(fa) and ops[k + 1] == "D":
+                taken = fa[k + 1]
+            elif o.startswith("X "):
+                taken = None
+            elif o == "DI" and taken is not None and "err:" not in taken and fa[k] != taken:
+                rp = dict(kind="seq", case=c, at_op=k, op="DI", detail=("snapshot iteration changed: taken %s / later %s" % (taken[:300], fa[k][:300])))
+                if f2_class(ops, fa):
+                    rp["class"] = "F2-reappended-id-not-above-eviction-boundary"
+                bad += 1
+                ctx.fail("oracle", "C07 oracle: a snapshot (dump_data) iterated later does not return the entries it held when it was taken", rp)
+                break
     for c, a, s in zip(cases, impl, spec):
         r = p_seq.oracle_c01(ctx, c, a, s)
         if r is not None:
